@@ -21,6 +21,7 @@ class Stats:
 
     def __init__(self):
         self.evaluations = 0
+        self.cases = 0
         self.labels = Counter()
         self.fps = set()
         self.known = Counter()
@@ -35,7 +36,9 @@ class Stats:
         self.notes = []
 
     def absorb(self, case, exp: dict) -> None:
-        self.evaluations += 1
+        # a case counts once, or once per oracle evaluation it carried
+        self.evaluations += max(1, exp.get("sub_evaluations", 0))
+        self.cases += 1
         self.labels.update(exp["labels"])
         self.fps.update(exp["fingerprints"])
         self.known.update(exp["known"])
@@ -60,6 +63,7 @@ class Stats:
                 samples.append(extra)
         return {
             "evaluations": self.evaluations,
+            "cases": self.cases,
             "labels": dict(self.labels),
             "fingerprints": sorted(self.fps),
             "known": dict(self.known),
